@@ -120,7 +120,48 @@ fn emit_fn(b: &mut Builder, rng: &mut Rng, plans: &[FnPlan], fi: usize, is_main:
     b.exit();
 }
 
+/// The entry point itself is the target of the program's only local calls: main calls itself
+/// (entry pc 0 is then both "the program" and "a local function": one key in any table of entries).
+/// r1 is 0 at entry on a no-data VM; the first activation turns it into the remaining depth.
+/// Every activation records caller_r10 - own_r10 (the caller's frame size), keeps values in r8/r9
+/// and in its own stack slot across the inner call, and folds them into r0.
+pub fn gen_self_calling_main(rng: &mut Rng) -> (Case, usize) {
+    let depth = rng.range(1, 9) as i32; // activations below the first one: 9 exceeds the limit of 8
+    let slot: i16 = *rng.pick(&[-8i16, -16, -64, -8, -256]);
+    let mut v: Vec<Insn> = Vec::new();
+    v.push(Insn::new(JNE_IMM, 1, 0, 2, 0)); //  0: recursive entry -> 3
+    v.push(Insn::new(MOV64_IMM, 1, 0, 0, depth + 1)); //  1
+    v.push(Insn::new(MOV64_REG, 2, 10, 0, 0)); //  2: first activation: "caller's r10" = own r10
+    v.push(Insn::new(MOV64_REG, 8, 2, 0, 0)); //  3
+    v.push(Insn::new(SUB64_REG_, 8, 10, 0, 0)); //  4: r8 = caller_r10 - r10
+    v.push(Insn::new(MOV64_REG, 9, 1, 0, 0)); //  5
+    v.push(Insn::new(STXDW, 10, 1, slot, 0)); //  6: own slot
+    v.push(Insn::new(MOV64_IMM, 0, 0, 0, rng.next() as i32)); //  7
+    v.push(Insn::new(JEQ_IMM, 1, 0, 3, 1)); //  8: innermost activation -> 12
+    v.push(Insn::new(ADD64_IMM, 1, 0, 0, -1)); //  9
+    v.push(Insn::new(MOV64_REG, 2, 10, 0, 0)); // 10
+    v.push(Insn::new(CALL, 0, 1, 0, -12)); // 11: call pc 0
+    v.push(Insn::new(LDXDW, 3, 10, slot, 0)); // 12
+    v.push(Insn::new(MUL64_IMM, 0, 0, 0, 0x01000193)); // 13
+    v.push(Insn::new(XOR64_REG, 0, 8, 0, 0)); // 14
+    v.push(Insn::new(MUL64_IMM, 0, 0, 0, 0x01000193)); // 15
+    v.push(Insn::new(XOR64_REG, 0, 9, 0, 0)); // 16
+    v.push(Insn::new(SUB64_REG_, 3, 9, 0, 0)); // 17: slot still holds this activation's r1
+    v.push(Insn::new(ADD64_REG, 0, 3, 0, 0)); // 18
+    v.push(Insn::new(EXIT, 0, 0, 0, 0)); // 19
+    let mut c = Case::new(Kind::NoData, encode_prog(&v), "self-calling-main");
+    c.calc = match rng.below(6) {
+        0 => CalcSpec::None,
+        1 => CalcSpec::Table(rng.below(16) as u16),
+        _ => CalcSpec::Const(*rng.pick(&[0u16, 8, 16, 32, 48, 56, 64, 128, 200, 256, 264, 384, 512])),
+    };
+    (c, depth as usize)
+}
+
 pub fn gen_callgraph(rng: &mut Rng) -> (Case, usize) {
+    if rng.chance(1, 24) {
+        return gen_self_calling_main(rng);
+    }
     loop {
         let nf = rng.range(1, 10) as usize; // functions besides main
         let want_depth = rng.range(0, 10) as usize; // chain length
@@ -297,6 +338,10 @@ pub fn run(a: &Args, rep: &mut Report) {
             }
         }
         rep.max("max_depth_executed", p.rr.max_depth as u64);
+        if p.case.class == "self-calling-main" {
+            rep.set("self_calling_main_outcomes", format!("{:?}:depth{}:{}", p.case.calc, depth, match &p.rr.outcome { crate::refvm::Outcome::Value(_) => "value".to_string(), o => format!("{o:?}").split(|ch: char| !ch.is_alphanumeric()).next().unwrap_or("").to_string() }));
+            rep.count("self_calling_main_programs");
+        }
         batch.push(p);
         if batch.len() >= 256 || k + 1 == n + nfar {
             check_interp(rep, "C07", &batch, true);
